@@ -425,7 +425,7 @@ class Interp:
                     fr.locals[base.local] = self._write_into(path, fr, tgt, list(base.proj) + rest, val)
                 return base
             # write through an opaque reference: remember in the side heap
-            self._heap_write(path, base, rest, val)
+            self._heap_write(path, base, rest, val, frame)
             return base
         if k == "field":
             name = e["name"]
@@ -440,15 +440,22 @@ class Interp:
                     el.append(Unknown("uninit"))
                 el[i] = self._write_into(path, frame, el[i], rest, val)
                 return Tup(el, base.kind)
-            self._heap_write(path, base, proj, val)
+            self._heap_write(path, base, proj, val, frame)
             return base
         if k == "downcast":
             return self._write_into(path, frame, base, rest, val)
-        self._heap_write(path, base, proj, val)
+        self._heap_write(path, base, proj, val, frame)
         return base
 
-    def _heap_write(self, path, base, proj, val):
-        path.events.append(("write_opaque", base, tuple(_pk(e) for e in proj), val))
+    def _heap_write(self, path, base, proj, val, frame=None):
+        # 5th element: the values of the locals used as indices in the projection (`xs[i] = v` through a reference)
+        idx = {}
+        cur = path.frames[-1] if path.frames else None       # index projections name locals of the executing function
+        if cur is not None:
+            for e in proj:
+                if e.get("k") == "index" and e.get("local") in cur.locals:
+                    idx[e["local"]] = self._snap(path, cur.locals[e["local"]])
+        path.events.append(("write_opaque", base, tuple(_pk(e) for e in proj), val, idx))
         if len(proj) == 1 and proj[0]["k"] == "field":
             path.heap[(base.key(), ("f", proj[0]["name"]))] = val
         elif not proj:
